@@ -535,3 +535,54 @@ def c19(run):
     ps.execute()
     run.assumptions += ["closures / function paths come from a fixed library; the std method is evaluated next to every "
                         "macro call and must agree with the specification (assert inside the program)"]
+
+
+# ------------------------------------------------------------------------------------------- C18
+@check("C18", rule="one program per (macro form, alternative list): 6 forms x 20 lists built from 22 literal tokens (every "
+                    "escape kind, \\\\u{..} with `_`, line continuations followed by space/tab/newline/NBSP/form feed, raw "
+                    "strings with 0-2 hashes, concat!, empty literal), each run on every input string of <= 2 (thorough 3) "
+                    "characters over a 12-character alphabet; branch taken and remainder offsets are compared; non-trivial "
+                    "= the input contains an alternative")
+def c18(run):
+    import progs
+    import gen_parsermethod as gp
+    q = run.tier == "quick"
+    gp.write_tla(os.path.join(core.SPEC, "ParserMethodLits.tla"))
+    out, hdr = vec("C18-ParserMethod.ndjson"), vec("C18-ParserMethod-hdr.ndjson")
+    for o in (out, hdr):
+        if os.path.exists(o):
+            os.remove(o)
+    run.mc("MC_ParserMethod", "ParserMethod.quick.cfg" if q else "ParserMethod.thorough.cfg",
+           env={"OUT": out, "HDR": hdr}, heap="8g", timeout=3000)
+    h = json.loads(open(hdr).readline())
+    inputs, lits = h["inputs"], h["lits"]
+    ps = progs.ProgSet(run, "C18-parsermethod")
+    for l in open(out):
+        r = json.loads(l)
+        altset = gp.ALTSETS[r["k"] - 1]
+        body, used = gp.rust_case(r["form"], altset, inputs)
+        gexp = "".join("%s=%s;" % (x, str(list(lits[x]))) for x in used)
+        rexp = "".join("%d,%d,%d;" % (e[0], e[1], e[2]) for e in r["exp"])
+        rec = {"m": "ParserMethod", "mac": "parser_method!(%s)" % r["form"], "alts": altset, "n_inputs": len(inputs)}
+
+        def accept(g, gexp=gexp, rexp=rexp, rec=rec, inputs=inputs):
+            if not g.startswith("G:") or "|R:" not in g:
+                return False
+            gg, rr = g[2:].split("|R:", 1)
+            if gg != gexp:
+                raise core.ToolError("SPEC-REFERENCE-MISMATCH: the specification's literal decoder disagrees with rustc: "
+                                     "spec %s rustc %s" % (gexp, gg))
+            if rr != rexp:
+                a, b = rr.split(";"), rexp.split(";")
+                for i in range(min(len(a), len(b))):
+                    if a[i] != b[i]:
+                        rec["first_diff"] = {"input": inputs[i], "got(branch,start,end)": a[i], "exp": b[i]}
+                        break
+            return rr == rexp
+        ps.add(body, "G:%s|R:%s" % (gexp, rexp[:60] + "..."), rec, accept=accept)
+    run.samples.append({"form": "strip_prefix", "alts": gp.ALTSETS[3], "literal tokens": [gp.LIT[x][2] for b in gp.ALTSETS[3] for x in b]})
+    ps.execute()
+    run.assumptions += ["rustc's own decoding of every literal token is observed in the same program (const L: &str = <token>) "
+                        "and must equal the specification's decoder (else tool error)",
+                        "alternative lists and input alphabet are fixed tables (lib/gen_parsermethod.py, generated into "
+                        "spec/ParserMethodLits.tla)"]
